@@ -11,6 +11,7 @@ package system
 //@ func (*System).Tick
 //@ props C12
 //@ nopanic C13
+//@ records tick
 //@ funcvalue DequeueCQE.*\.Callback$ records cqe_callback
 //@ funcvalue DequeueSQE.*\.Callback$ records sqe_callback
 //@ funcvalue ^s\.onRequest\[ records make_coroutine
@@ -38,3 +39,15 @@ package system
 //@ ensures calls("constructor") == 1 && calls("api_enqueue_cqe") == 1
 //@ ensures callarg("api_enqueue_cqe", 0, 1) != nil && callarg("api_enqueue_cqe", 0, 1).Id == req.Tags["id"]
 //@ ensures callarg("api_enqueue_cqe", 0, 1).Completion == callres("constructor", 0, 0) && callarg("api_enqueue_cqe", 0, 1).Error == callres("constructor", 0, 1)
+
+// The loop gives up (returns) only on a shutdown check that directly follows a tick of the same iteration:
+// the tick is what drains the buffered request and the queues, so a check without it could miss an accepted
+// request.
+//@ func (*System).Loop
+//@ props C12
+//@ nopanic C13
+//@ use-contracts Tick
+//@ requires s != nil && s.config != nil && s.aio != nil && s.api != nil && s.scheduler != nil && s.onRequest != nil && s.metrics != nil && s.metrics.CoroutinesTotal != nil && s.metrics.CoroutinesInFlight != nil
+//@ requires s.config.SubmissionBatchSize > 0 && s.config.CompletionBatchSize > 0 && s.shutdown != nil && !closed(s.shutdown) && s.shortCircuit != nil
+//@ loop 1 invariant !closed(s.shutdown) && s.config != nil && s.aio != nil && s.api != nil && s.scheduler != nil && s.onRequest != nil && s.metrics != nil && s.metrics.CoroutinesTotal != nil && s.metrics.CoroutinesInFlight != nil && s.config.SubmissionBatchSize > 0 && s.config.CompletionBatchSize > 0 && s.shortCircuit != nil
+//@ site return assert itercalls("tick") == 1
